@@ -1,3 +1,4 @@
+import typing
 from dataclasses import dataclass
 from enum import Enum
 from graphlib import TopologicalSorter
@@ -50,6 +51,12 @@ def typeorder(t1, t2):
     * typeorder(t1, t2) is Order.MORE   if t1 is more general than t2
     * typeorder(t1, t2) is Order.NONE   if they cannot be compared
     """
+    # typing.Any stands for object wherever it appears (type[Any], list[Any])
+    if t1 is typing.Any:
+        t1 = object
+    if t2 is typing.Any:
+        t2 = object
+
     if t1 == t2:
         return Order.SAME
 
@@ -108,6 +115,12 @@ def typeorder(t1, t2):
 
 def subclasscheck(t1, t2):
     """Check whether t1 is a "subclass" of t2."""
+    # typing.Any stands for object wherever it appears (type[Any], list[Any])
+    if t1 is typing.Any:
+        t1 = object
+    if t2 is typing.Any:
+        t2 = object
+
     if t1 == t2:
         return True
 
